@@ -485,6 +485,51 @@ def r1412(db, ctx):
     C09.to_freq_form(db, ctx, 'R14.12', 'lightmotif_io::transfac::Record::to_freq', ('fld', ('down', ('fld', ('p', 1), 'data'), 'Some'), '0'))
 
 
+def r1414(db, ctx):
+    ctx.rule('R14.14', 'a header line is read completely: the description a `header` parser returns (the Some payload) is derived from a rest-of-line '
+                       'recogniser (take_until("\\n") / not_line_ending / take_till), not from a token recogniser — a description of several words is one field')
+    from lm import prov as PV
+    REST = ('take_until', 'not_line_ending', 'take_till', 'take_till1', 'take_until1', 'rest')
+    n = 0
+    for path in ('lightmotif_io::jaspar::parse::header', 'lightmotif_io::jaspar16::parse::header'):
+        try:
+            f = db.fn(path)
+        except KeyError:
+            ctx.fail('R14.14', path, 'anchor', 'reason=anchor-missing')
+            continue
+        R = X.Rec(f)
+        somes = []
+        for bi, blk in enumerate(f.blocks):
+            for si, st in enumerate(blk['stmts']):
+                rv = st.get('rv') if isinstance(st, dict) and st.get('k') == 'assign' else None
+                if not rv or rv.get('k') != 'agg':
+                    continue
+                try:
+                    e = R.at(bi).rvalue(rv)
+                except Exception:
+                    continue
+                if e[0] == 'agg' and isinstance(e[1], tuple) and e[1][0] == 'adt' and e[1][1].endswith('option::Option') and len(e[2]) == 1:
+                    somes.append((bi, e, st.get('span')))
+        n += 1
+        if not somes:
+            # combinator spelling: the description is built in a closure mapped over the parser's output; the pairing of closure arguments with
+            # sub-parsers is not followed — not decided, as long as a rest-of-line recogniser is what the header applies
+            cs = {f.callee_short(t_) or '' for _, t_ in f.calls()}
+            if db.closures_of(f) and any(c_.rsplit('::', 1)[-1] == r_ for c_ in cs for r_ in REST):
+                ctx.ok('R14.14', f, 'combinator form (description built in a mapped closure): not decided', ['a rest-of-line recogniser is applied'])
+            else:
+                ctx.fail('R14.14', f, 'description', 'reason=unrecognised-shape: no Some(description) construction found')
+            continue
+        for bi, e, span in somes:
+            cs = PV.calls_in(f, R.at(bi), e[2][0])
+            if any(c_.rsplit('::', 1)[-1] == r_ or ('::' + r_ + '::') in c_ for c_ in cs for r_ in REST):
+                ctx.ok('R14.14', f, 'description = the rest of the header line (trimmed)')
+            else:
+                ctx.fail('R14.14', f, 'description', 'the description is not derived from a rest-of-line recogniser: ' + ', '.join(sorted(c_.rsplit('::', 2)[-1] for c_ in cs if 'nom::' in c_))[:200] +
+                         ' — a description of several words is cut at the first blank', span=span)
+    ctx.floor('R14.14', n, 2, 'header parsers')
+
+
 def r1413(db, ctx):
     ctx.rule('R14.13', 'blanks around a delimiter token are optional: in the parsers of the I/O crate `delimited(a, token, b)` / `tuple((a, token, b))` never has a mandatory-blank '
                        'recogniser (space1 / multispace1) as `a` or `b` — "[1 2 3]" and "[ 1 2 3 ]" are the same row')
@@ -775,6 +820,7 @@ def run(db, ctx):
     r1411(db, ctx, roots)
     r1412(db, ctx)
     r1413(db, ctx)
+    r1414(db, ctx)
     r148(db, ctx)
     r149(db, ctx)
     r1410(db, ctx)
